@@ -1,9 +1,128 @@
 (* Extract.v — extraction of every executable model run by the correspondence driver.
    ExtrOcamlBasic only: bool, option, unit, list, prod, sumbool map to OCaml's; nat, positive, N, Z
-   stay the extracted inductive datatypes (no Extract Constant to OCaml integers). *)
-From Coq Require Import Extraction ExtrOcamlBasic List NArith.
+   stay the extracted inductive datatypes (no Extract Constant to OCaml integers).
+
+   Names.  Everything is extracted into ONE file; when two Coq modules define the same identifier
+   (PLE.radix / TRSM.radix, Ops.write_bit / IO.write_bit, Ops.set_row / IO.set_row ...) the
+   extraction renames the later one.  The models of Lin/ and Alg/Gauss.v come first and keep their
+   names (ocaml/driver.ml uses them directly); everything added later is reached through the
+   wrappers [x_...] below, whose names are unique. *)
+From Coq Require Import Extraction ExtrOcamlBasic List NArith ZArith Arith Bool.
 From M4 Require Import Base.Bits Lin.Mat Lin.Ops Alg.Gauss.
+From M4 Require Lin.Spec Alg.PLE Alg.PLESpec Alg.TRSM Alg.Mul Alg.Solve Sys.IO.
+Import ListNotations.
 Extraction Blacklist List String Nat Int.
+
+(* ---- C03: models and VERIFIED checkers (Alg/PLEProofs.v: ple_ok_spec, pluq_ok_spec) ---- *)
+Definition x_ple_naive := PLE.ple_naive.
+Definition x_pluq_naive := PLE.pluq_naive.
+Definition x_pluq_of_ple := PLE.pluq_of_ple.
+Definition x_ple_rec := PLE.ple_rec.
+Definition x_pluq_rec := PLE.pluq_rec.
+Definition x_compress_l := PLE.compress_l.
+Definition x_ple_ok := PLESpec.ple_ok.
+Definition x_pluq_ok := PLESpec.pluq_ok.
+Definition x_crp_of := PLESpec.crp_of.
+
+(* ---- C04 / C05: unique solutions and inverses (Alg/TRSMProofs.v, Alg/InvProofs.v) ---- *)
+Definition x_trsm_lower_left := TRSM.trsm_lower_left.
+Definition x_trsm_upper_left := TRSM.trsm_upper_left.
+Definition x_trsm_upper_right := TRSM.trsm_upper_right.
+Definition x_trsm_lower_right := TRSM.trsm_lower_right.
+Definition x_trsm_lower_left_rec := TRSM.trsm_lower_left_rec.
+Definition x_trsm_upper_left_rec := TRSM.trsm_upper_left_rec.
+Definition x_trsm_upper_right_rec := TRSM.trsm_upper_right_rec.
+Definition x_trsm_lower_right_rec := TRSM.trsm_lower_right_rec.
+Definition x_mkcfg := TRSM.mkcfg.
+Definition x_trtri_upper_simple := TRSM.trtri_upper_simple.
+Definition x_trtri_upper_rec := TRSM.trtri_upper_rec.
+Definition x_inv_m4ri_model := TRSM.inv_m4ri_model.
+Definition x_inv_m4ri_faithful := TRSM.inv_m4ri_faithful.
+Definition x_invert_naive_model := TRSM.invert_naive_model.
+
+(* ---- C01 (Tier B): faithful models of the cubic and the M4RM route ---- *)
+Definition x_m4rm_run := Mul.m4rm_run.
+Definition x_naive_run := Mul.naive_run.
+
+(* ---- C18 ---- *)
+Definition x_png_case := IO.png_case.
+Definition x_png_read_case := IO.png_read_case.
+Definition x_png_header_case := IO.png_header_case.
+Definition x_jcf_case := IO.jcf_case.
+Definition x_str_case := IO.str_case.
+Definition x_png_write := IO.png_write.
+Definition x_z_of_N := Z.of_N.
+Definition x_z_opp := Z.opp.
+Definition x_z_abs_N := Z.abs_N.
+Definition x_z_ltb := Z.ltb.
+
+(* ---- C06 / C07 (Tier B): faithful models of solve.c, PLUQ = _mzd_pluq with the build's PLE cut-off ---- *)
+Definition x_solve_left_cfg := Solve.solve_left_cfg.
+Definition x_pluq_solve_left_model := Solve.pluq_solve_left_model.
+Definition x_kernel_left_cfg := Solve.kernel_left_cfg.
+Definition x_solve_left_pinned := Solve.solve_left_pinned.
+
+(* ---- C06 / C07: Tier-A checkers.
+   HOOK.  These are plain compositions of verified pieces (Gauss.rank / rref: rank_canonical,
+   rref_canonical; mmul; mequal; is_zero), independent of any solver code.  Alg/Solve.v has no
+   executable [solve_ok] / [kernel_ok] of its own yet; when it gets them (proven to reflect the C06 /
+   C07 statements), re-point [x_solve_ok] / [x_kernel_ok] at them — nothing else changes. ---- *)
+
+(* A padded with zero rows up to the number of rows of B (= max(m, n)) *)
+Definition x_pad_rows (A : mat) (rows_total : nat) : mat :=
+  mstack A (mzero (rows_total - nr A) (nc A)).
+
+(* the system  A_pad * X = B  has a solution  <->  rank [A_pad | B] = rank A_pad  (Rouche-Capelli) *)
+Definition x_consistent (A B : mat) : bool :=
+  let Ap := x_pad_rows A (nr B) in
+  rank (mconcat Ap B) =? rank Ap.
+
+(* C06: [ret0] = "the routine returned 0", X = B after the call (max(m,n) rows, the first n are read) *)
+Definition x_solve_ok (A B0 X : mat) (ret0 check : bool) : bool :=
+  let Ap := x_pad_rows A (nr B0) in
+  let cons := x_consistent A B0 in
+  let shape := wfb X && (nr X =? nr B0) && (nc X =? nc B0) in
+  let sol := mequal (mmul Ap (msub X 0 0 (nc A) (nc X))) B0 in
+  if check then (if ret0 then cons && shape && sol else negb cons)
+  else ret0 && shape && (if cons then sol else true).
+
+(* C07 *)
+Definition x_kernel_ok (A : mat) (K : option mat) : bool :=
+  let r := rank A in
+  match K with
+  | None => r =? nc A
+  | Some K => negb (r =? nc A) && wfb K && (nr K =? nc A) && (nc K =? nc A - r) &&
+              is_zero (mmul A K) && (rank (mtrans K) =? nc A - r)
+  end.
+
+(* Canonical forms used for one-pass comparison (catalogue scripts, C09..C12).
+   The pivot columns of A and the unique solution of A X = B that vanishes on the non-pivot rows
+   (what solve.c computes: X = Q^T [U^-1 L^-1 (P B)_top ; 0]); B may have more rows than A. *)
+Definition x_pivots (R : mat) (r : nat) : list nat :=
+  map (fun i => match lowbit (row R i) with Some j => j | None => 0 end) (seq 0 r).
+Fixpoint x_index_of (j : nat) (l : list nat) (i : nat) : option nat :=
+  match l with [] => None | x :: t => if x =? j then Some i else x_index_of j t (S i) end.
+Definition x_canon_solve (A B : mat) : mat :=
+  let n := nc A in
+  let Bm := msub B 0 0 (nr A) (nc B) in
+  let R := rref (mconcat A Bm) in
+  let piv := x_pivots R (rank A) in
+  mk (nr B) (nc B)
+     (map (fun j => match x_index_of j piv 0 with
+                    | Some i => N.shiftr (row R i) (N.of_nat n)
+                    | None => 0%N end) (seq 0 (nr B))).
+
+(* a basis of the right null space of A as the ROWS of the result: one vector per non-pivot column f,
+   with a one at f and, at pivot column p_i, the entry (i, f) of the reduced row echelon form *)
+Definition x_kernel_rows (A : mat) : mat :=
+  let R := rref A in
+  let r := rank A in
+  let piv := x_pivots R r in
+  let free := filter (fun j => match x_index_of j piv 0 with Some _ => false | None => true end) (seq 0 (nc A)) in
+  mk (length free) (nc A)
+     (map (fun f => fold_left (fun v ip => if get R (fst ip) f then N.lor v (N.shiftl 1 (N.of_nat (snd ip))) else v)
+                              (combine (seq 0 r) piv) (N.shiftl 1 (N.of_nat f))) free).
+
 Cd "extracted".
 Extraction "m4model.ml"
   (* Mat *) mk wfb mzero mid madd mmul mtrans msub mstack mconcat get row
@@ -11,5 +130,13 @@ Extraction "m4model.ml"
             write_bit col_swap_in_rows col_swap apply_p_left apply_p_left_trans apply_p_right
             apply_p_right_trans apply_p_right_trans_tri mequal mcmp is_zero first_zero_row find_pivot
             mcopy_into set_ui extract_u extract_l mpaste
-  (* Gauss *) gauss_delayed echelonize rref rank.
+  (* Gauss *) gauss_delayed echelonize rref rank
+  (* C03 *) x_ple_naive x_pluq_naive x_pluq_of_ple x_ple_rec x_pluq_rec x_compress_l x_ple_ok x_pluq_ok x_crp_of
+  (* C04/C05 *) x_trsm_lower_left x_trsm_upper_left x_trsm_upper_right x_trsm_lower_right
+            x_trsm_lower_left_rec x_trsm_upper_left_rec x_trsm_upper_right_rec x_trsm_lower_right_rec x_mkcfg
+            x_trtri_upper_simple x_trtri_upper_rec x_inv_m4ri_model x_inv_m4ri_faithful x_invert_naive_model
+  (* C01 Tier B *) x_m4rm_run x_naive_run
+  (* C06/C07 *) x_solve_left_cfg x_pluq_solve_left_model x_kernel_left_cfg x_solve_left_pinned x_pad_rows x_consistent x_solve_ok x_kernel_ok x_canon_solve x_kernel_rows
+  (* C18 *) x_png_case x_png_read_case x_png_header_case x_jcf_case x_str_case x_png_write
+            x_z_of_N x_z_opp x_z_abs_N x_z_ltb.
 Cd "..".
